@@ -1,5 +1,6 @@
 """C03 — numeric conversions and binary encodings. Spec: MBF.tla + MBFConv.tla; oracle self-checks MBFConv_MC (and MBF_MC);
 trace spec C03_Trace."""
+import os
 import time
 from ..mbfdrv import (Drv, Pipeline, Sink, typ, int_bytes, flt, flt_of_int, neighbour, rand_float, rand_value, near_integer,
                       small_magnitude, CVFN, MKFN, PBITS, SIZE)
@@ -39,6 +40,10 @@ def run(ctx):
                        '(fn, operand bytes, route) tuples; non-trivial = all (every tuple exercises a defining equation)')
     quick = ctx.quick()
     rng = ctx.rng
+    # development knob only (smoke-testing the thorough code paths quickly); evidence records it when used
+    scale = float(os.environ.get('VF_MBF_SCALE', '1'))
+    if scale != 1:
+        ctx.cov['volume_scale'] = scale
     # oracle self-checks (reduced format, native arithmetic as reference)
     ctx.model_check('MBFConv_MC', 'MBFConv_MC_quick.cfg' if quick else 'MBFConv_MC.cfg', require_actions=False, workers=4)
     if not quick:
@@ -116,7 +121,7 @@ def run(ctx):
                                'c': o['c'], 'via': 'direct'})
 
     # ---- CINT / FIX / INT on singles and doubles -----------------------------
-    nflt = ctx.pick(25000, 400000)
+    nflt = max(10, int(ctx.pick(25000, 400000) * scale))
     edge_n = [32767, 32768, 32769, 32766, 65535, 65536, 65537, 16384, 1, 2, 3, 255, 256]
     for t in ('s', 'd'):
         pats = []
@@ -157,7 +162,7 @@ def run(ctx):
                 events.append(conv_events(d, fn, b, rng.random() < ptext))
 
     # ---- CVx / MKx$ byte identity ---------------------------------------------
-    ncv = ctx.pick(5000, 150000)
+    ncv = max(10, int(ctx.pick(5000, 150000) * scale))
     for t in ('i', 's', 'd'):
         for i in range(ncv):
             b = [rng.randrange(256) for _ in range(SIZE[t])] if i % 3 else rand_value(rng, t)
@@ -177,7 +182,7 @@ def run(ctx):
                                'r': o['b'], 'via': 'direct'})
 
     # ---- single -> double (exact), double -> single (neighbour rule) ----------
-    nsd = ctx.pick(20000, 300000)
+    nsd = max(10, int(ctx.pick(20000, 300000) * scale))
     for _ in range(nsd):
         b = rand_float(rng, 's')
         text = rng.random() < ptext
